@@ -104,9 +104,58 @@ def r_C17eval(root):
         k, _ = call(repo, "remove_model", parked)
         allm = table(repo.get(".all_models"))
         rep("C18.j", "a model whose _tx_filename does not name its entry is removed too", k == "ret" and not any(m_ is parked for m_ in (allm or {"x": parked}).values()), "after remove_model(<model stored as /m/parked.mdl whose _tx_filename reads /g/grammar.tx>) the model is %s in all_models (documented: entries are found by the stored model object; a root object of a user class whose attributes are still parked reads the class-level _tx_filename)" % ("still" if k != "ret" or any(m_ is parked for m_ in (allm or {}).values()) else "no longer"), witness="grammar from a file, user class for the root rule, global_repository=True, a contained user class whose __init__ raises; then the same file again")
+    # a model whose class defines equality by value and therefore has no hash (a root rule with a user class / dataclass with eq=True)
+    class _Unhashable(HS):
+        __hash__ = None
+    uh = _Unhashable({".kind": "model", "._tx_filename": "/m/u.mdl"}); allm_obj[".filename_to_model"]["/m/u.mdl"] = uh
+    k, _ = call(repo, "remove_models", [uh])
+    allm = table(repo.get(".all_models"))
+    rep("C18.j", "a model of a user class without a hash is removed too", k == "ret" and not any(m_ is uh for m_ in (allm or {"x": uh}).values()), "remove_models([<model of a user class that defines __eq__ and so has no __hash__>]) %s (documented: every listed model leaves the repository; the objects of a model are the user's, the repository may compare them but not hash them)" % ("raises " + str(_) if k == "raise" else "leaves the model in all_models"))
+    # (the failure paths of a load remove the models before they restore the user classes: a removal that raises masks the error and skips the restore)
+    okc_ = k == "ret" and not any(m_ is uh for m_ in (allm or {"x": uh}).values())
+    ob("C14", "C18.j", S, "GlobalModelRepository", "a model of a user class without a hash is removed too", okc_)
+    if not okc_: out.append(Finding("C14", "C18.j", S, "GlobalModelRepository", "a model of a user class without a hash is removed too", "remove_models([<model of a user class that defines __eq__ and so has no __hash__>]) %s: the clean-up of a failed load calls it before the user classes are restored" % ("raises " + str(_) if k == "raise" else "leaves the model in all_models")))
     k, _ = call(repo, "remove_models", [b1, cached, anon2])
     allm = table(repo.get(".all_models"))
     rep("C18.j", "remove_models removes every listed model", k == "ret" and not any(m_ is b1 or m_ is cached or m_ is anon2 for m_ in (allm or {"x": b1}).values()), "after remove_models([b, c, <string-loaded model>]) all_models still holds %s" % sorted(k_ for k_, m_ in (allm or {}).items() if m_ is b1 or m_ is cached or m_ is anon2))
+    # ---- ModelRepository.add_model (the table's own API): file models under their absolute name, models without file name under one invented name each
+    try: mr = pyeval.instantiate("ModelRepository", [], {}, env)
+    except pyeval.Unsupported as u_: raise AnalysisError("ModelRepository(): outside the evaluated subset: %s" % u_)
+    added = [HS({".kind": "model", "._tx_filename": f_, ".__complete__": "all"}) for f_ in (None, "/r/f1.mdl", None, None, "rel/f2.mdl", None, "")]
+    ks_ = [call(mr, "add_model", m_)[0] for m_ in added]
+    tab_ = table(mr) or {}
+    okc_ = all(k_ == "ret" for k_ in ks_) and len(tab_) == len(added) and all(any(v_ is m_ for v_ in tab_.values()) for m_ in added) and tab_.get("/r/f1.mdl") is added[1] and tab_.get("/cwd/rel/f2.mdl") is added[4]
+    rep("C17.m", "add_model: seven models, five of them without file name, interleaved", okc_, "after ModelRepository.add_model of five string-loaded models (no file name) interleaved with the files /r/f1.mdl and rel/f2.mdl the table holds the names %s for %d of the 7 models; documented: every model stays in the table - a file under its absolute name, a model without file name under an invented name of its own" % (sorted(tab_), sum(1 for m_ in added if any(v_ is m_ for v_ in tab_.values()))))
+    # ---- C18.l  get_included_models: the models of a model are those of the repository the model carries, each once, plus the model itself
+    gim = fns.get("get_included_models")
+    if gim is None: raise AnalysisError("scoping/__init__.py: get_included_models not found")
+    pm_ = gim.args.args[0].arg
+    def included(model_):
+        try: return ("ret", pyeval.run_block(gim.body, dict(env, **{pm_: model_})))
+        except pyeval.Raised as r_: return ("raise", r_.cls)
+        except pyeval.Unsupported as u_: raise AnalysisError("get_included_models: outside the evaluated subset: %s" % u_)
+    def same(got_, want_): return got_[0] == "ret" and isinstance(got_[1], list) and len(got_[1]) == len(want_) and all(any(g_ is w_ for g_ in got_[1]) for w_ in want_)
+    def rep2(what, ok, msg):
+        nonlocal inst
+        inst += 1
+        for pr_ in ("C18", "C14", "C15", "C09"):
+            ob(pr_, "C18.l", S, "get_included_models", what, ok)
+            if not ok: out.append(Finding(pr_, "C18.l", S, "get_included_models", what, msg))
+    def show2(got_): return "raises " + str(got_[1]) if got_[0] == "raise" else "returns %d model(s)" % len(got_[1]) if isinstance(got_[1], list) else "returns %r" % (got_[1],)
+    r1 = new_repo(); r2 = new_repo(); mmx = HS({".kind": "metamodel", "._tx_model_repository": r2})
+    ma = HS({".kind": "model", "._tx_filename": "/i/a.mdl"}); mb = HS({".kind": "model", "._tx_filename": "/i/b.mdl"}); mz = HS({".kind": "model", "._tx_filename": "/i/z.mdl"})
+    main = HS({".kind": "model", "._tx_filename": "/i/main.mdl", "._tx_model_repository": r1, "._tx_metamodel": mmx, ".__complete__": "all"})
+    lone = HS({".kind": "model", "._tx_filename": None, "._tx_metamodel": HS({".kind": "metamodel", ".__complete__": "all"}), ".__complete__": "all"})
+    for f_, m_ in (("/i/a.mdl", ma), ("/i/b.mdl", mb), ("/i/main.mdl", main)): r1[".all_models"][".filename_to_model"][f_] = m_
+    r2[".all_models"][".filename_to_model"]["/i/z.mdl"] = mz
+    g = included(lone); rep2("a model without repository", same(g, [lone]), "get_included_models of a model that carries no repository %s; documented: the list holding that model" % show2(g))
+    g = included(main); rep2("a model cached in its own repository with two imported models", same(g, [ma, mb, main]), "get_included_models of a model whose repository caches it and two imported models %s; documented: exactly those three, the owning model once (the models of another repository - here the global repository of the meta-model, holding a model of an unrelated load - are not this model's)" % show2(g))
+    strm = HS({".kind": "model", "._tx_filename": None, "._tx_model_repository": r1, "._tx_metamodel": mmx, ".__complete__": "all"})
+    g = included(strm); rep2("a string-loaded model that is not cached itself", same(g, [ma, mb, main, strm]), "get_included_models of a model that is not in its repository's cache (loaded from a string) %s; documented: the cached models plus the model itself" % show2(g))
+    r3 = new_repo()
+    um = _Unhashable({".kind": "model", "._tx_filename": "/i/u.mdl", "._tx_model_repository": r3, ".__complete__": "all"}); ui = _Unhashable({".kind": "model", "._tx_filename": "/i/ui.mdl"})
+    r3[".all_models"][".filename_to_model"]["/i/u.mdl"] = um; r3[".all_models"][".filename_to_model"]["/i/ui.mdl"] = ui
+    g = included(um); rep2("models of a user class without a hash", same(g, [um, ui]), "get_included_models of a model whose root class defines __eq__ (no __hash__) %s; documented: the two cached models - the objects are the user's, they may be compared but not hashed" % show2(g))
     return inst, out
 
 def r_C15eval(root):
@@ -342,4 +391,21 @@ def r_globalrepo(root):
         st = state()
         rep(what + ": the provider is unchanged afterwards", st[0] == st0[0] and len(st[1]) == len(st0[1]) and all(x_ is y_ for x_, y_ in zip(st[1], st0[1])),
             "after %s the provider holds the patterns %s and %d directly added model(s); before: %s and %d - a load must not leave a trace in the provider object (it serves every later load of the meta-model)" % (what, st[0], len(st[1]), st0[0], len(st0[1])))
+    # ---- load_models_in_model_repo: the repository the caller gives is the one that is filled and returned - also when it is still empty
+    W2 = "GlobalRepo.load_models_in_model_repo"
+    if pyeval.find_method(allc, "GlobalRepo", "load_models_in_model_repo")[1] is None: raise AnalysisError("GlobalRepo.load_models_in_model_repo not found")
+    env["textx"] = {".scoping": env["scoping"]}; env["__keep__"] = tuple(env.get("__keep__") or ()) + ("textx", "scoping", "glob"); env["glob"] = {".glob": pyeval.PyFn(lambda *a_, **k_: [])}; env["ModelParams"] = pyeval.PyFn(lambda d=None, **k: HS({".kind": "ModelParams", ".given": dict(d if d is not None else k)}))
+    def filled_repo(n):
+        try: r_ = pyeval.instantiate("GlobalModelRepository", [], {}, env)
+        except pyeval.Unsupported as u_: raise AnalysisError("GlobalModelRepository(): outside the evaluated subset: %s" % u_)
+        log_ = []
+        r_[".load_models_using_filepattern"] = pyeval.PyFn(lambda *a_, **k_: log_.append((a_, k_)))
+        for i_ in range(n): r_[".all_models"][".filename_to_model"]["/old/%d.mdl" % i_] = HS({".kind": "model"})
+        return r_, log_
+    for n_ in (0, 2):
+        given, log_ = filled_repo(n_)
+        k, v = call(prov, "load_models_in_model_repo", global_model_repo=given, encoding="latin-1", project_root="/pr")
+        pats_ = [(e[0][0] if e[0] else e[1].get("filename_pattern")) for e in log_]
+        okr = k == "ret" and v is given and pats_ == st0[0] and all(e[1].get("encoding") == "latin-1" and e[1].get("glob_args") is gargs and e[1].get("is_main_model") is True for e in log_)
+        rep("load_models_in_model_repo with a given repository holding %d model(s)" % n_, okr, "load_models_in_model_repo(global_model_repo=<a GlobalModelRepository holding %d models>, encoding='latin-1') %s and asks the given repository for the patterns %s; documented: the registered patterns %s are loaded into the repository the caller gave - also a still empty one (it is the one the caller shares with the meta-model) - and that repository is returned" % (n_, "returns the given repository" if k == "ret" and v is given else ("raises %s" % v if k == "raise" else "returns another repository"), pats_, st0[0]))
     return inst, out
